@@ -9,6 +9,8 @@ cd /verif
 LIST=${@:-$(ls seeded)}
 for s in $LIST; do
   P=${s%%-*}
+  # the check that detects it may belong to another property (recorded in meta.json: "tools/try_seed.sh <Cxx> ...")
+  Q=$(grep -o 'try_seed.sh C[0-9]*' seeded/$s/meta.json 2>/dev/null | head -1 | cut -d' ' -f2); [ -n "$Q" ] && P=$Q
   ( cd $W && git apply /verif/seeded/$s/patch.diff ) || { echo "$s PATCH-DOES-NOT-APPLY"; continue; }
   OUT=$(VERIF_REPO=$W VERIF_EVIDENCE_DIR=$EV ./check $P 2>&1); RC=$?
   echo "$s rc=$RC violations=$(echo "$OUT" | grep -c '^VIOLATION') inconclusive=$(echo "$OUT" | grep -c '^INCONCLUSIVE')"
